@@ -81,6 +81,7 @@ def run(ck, F):
             B = I.collapsed_body(F.lib, fn, stop=stop)
             if B is not None and B.calls_to(PARSE):
                 heads.append((fn, B, cs))
+    _cleared_only_at_entry(ck, F, g, heads)
     parsers = [b for b in scans.bodies(F.lib) if "yaserde_tests" not in b["path"] and M.Body(b).calls_to(PARSE)]
     ck.floor("R1", "functions parsing a document", len(parsers), 1)
     if not heads:
@@ -96,7 +97,7 @@ def run(ck, F):
             # the file whose text is parsed
             xml_roots = {(o.kind, getattr(o, "local", None)) for o in M.trace(B, pt["args"][0]) if o.kind == "arg"}
             loads = []
-            for bb, t in B.calls_to(C12.ATOMIC_LOAD):
+            for bb, t in B.calls_to(C12.ATOMIC_LOAD) + _test_and_set(B):
                 os_ = M.trace(B, t["args"][0])
                 if os_ and all("processed" in o.fields() for o in os_) and {(o.kind, getattr(o, "local", None)) for o in os_} & xml_roots:
                     loads.append(bb)
@@ -111,9 +112,10 @@ def run(ck, F):
                 ck.violation("R1", "guard-before-parse", B.term(parse_bb).get("sp"),
                              "the file is parsed without first testing its processed flag: a file imported twice is read twice", fn=fn)
         stores = []
-        for bb, t in B.calls_to(C12.ATOMIC_STORE):
+        for bb, t in B.calls_to(C12.ATOMIC_STORE) + _test_and_set(B):
             os_ = M.trace(B, t["args"][0])
-            vals = M.trace(B, t["args"][1], M.IDENTITY_CALLS)
+            vi = 2 if (M.Body.callee_decl(t) or "").endswith(("compare_exchange", "compare_exchange_weak")) else 1
+            vals = M.trace(B, t["args"][vi], M.IDENTITY_CALLS)
             if os_ and all(o.kind == "arg" and "processed" in o.fields() for o in os_) and vals and all(
                     v.kind == "const" and "true" in str(v.const.get("text")) for v in vals):
                 stores.append(bb)
@@ -362,3 +364,55 @@ def rule_verbatim_keys(ck, F, rule):
             else:
                 ck.ok(rule, f"key-verbatim:{b['path'].rsplit('::', 1)[-1]}", B.term(bb).get("sp"), "files are stored under the registered name, verbatim", fn=b["path"])
     ck.floor(rule, "file table insertions", n_ins, 1)
+
+
+TEST_AND_SET = ("Atomic::<bool>::swap", "Atomic::<bool>::fetch_or", "Atomic::<bool>::compare_exchange", "Atomic::<bool>::compare_exchange_weak")
+CLEARING = ("Atomic::<bool>::store", "Atomic::<bool>::swap", "Atomic::<bool>::fetch_and", "Atomic::<bool>::fetch_xor", "Atomic::<bool>::fetch_nand",
+            "Atomic::<bool>::compare_exchange", "Atomic::<bool>::compare_exchange_weak", "Atomic::<bool>::fetch_update", "Atomic::<bool>::get_mut",
+            "Atomic::<bool>::fetch_not")
+
+
+def _test_and_set(B):
+    """calls that read the flag and set it in one step (`swap(true)`, `fetch_or(true)`, `compare_exchange(false, true)`): they count as
+    the test (their result is the old value) and as the store"""
+    return [(bb, t) for bb, t in B.calls() if (M.Body.callee_decl(t) or "").endswith(TEST_AND_SET)]
+
+
+def _cleared_only_at_entry(ck, F, g, heads):
+    """Within one run a file that was read stays marked: the processed flag is written with anything other than `true` only in a
+    function that enters the import recursion from outside (the reset at the start of a run), before it does so. A clearing store
+    anywhere else (in the recursion, in a helper of it, in a `Drop` impl) makes a file readable again while the run is going on:
+    a file imported along two paths is then read and merged twice."""
+    rec = set()
+    for fn, B, cs in heads:
+        rec |= cs
+    n = 0
+    for b in scans.bodies(F.lib):
+        if "yaserde_tests" in b["path"] or "::tests::" in b["path"]:
+            continue
+        B = M.Body(b)
+        for bb, t in B.calls():
+            d = M.Body.callee_decl(t) or ""
+            if not d.endswith(CLEARING) or not t.get("args"):
+                continue
+            os_ = M.trace(B, t["args"][0])
+            if not (os_ and any("processed" in o.fields() for o in os_)):
+                continue
+            vi = 2 if d.endswith(("compare_exchange", "compare_exchange_weak")) else 1
+            vals = M.trace(B, t["args"][vi], M.IDENTITY_CALLS) if len(t["args"]) > vi else []
+            sets_true = bool(vals) and all(v.kind == "const" and "true" in str(v.const.get("text")) for v in vals) and not d.endswith(
+                ("fetch_and", "fetch_xor", "fetch_nand", "fetch_update", "get_mut", "fetch_not"))
+            if sets_true:
+                continue
+            n += 1
+            short = b["path"].rsplit("::", 1)[-1]
+            owner = b["path"].split("::{closure")[0]
+            enters = [cbb for cbb, ct in B.calls() if ((M.Body.callee(ct) or "") in rec or (M.Body.callee_decl(ct) or "") in rec)]
+            at_entry = owner not in rec and bool(enters) and not any(bb in B.reachable_from(cbb) for cbb in enters)
+            if at_entry:
+                ck.ok("R1", f"flag-cleared-at-entry:{short}", B.term(bb).get("sp"), f"{short}: the processed flags are reset before the import recursion is entered", fn=b["path"])
+            else:
+                ck.violation("R1", f"flag-cleared:{short}", B.term(bb).get("sp"),
+                             f"{b['path']} clears a file's processed flag outside the reset at the start of a run: during one run a file that was "
+                             f"read becomes readable again, so a file imported along two paths is read (and merged) once per path", fn=b["path"])
+    return n
